@@ -390,12 +390,30 @@ pub struct Graph {
     pub state: WarpState,
     pub root: NodeKey,
     pub warps: Vec<u64>,
+    /// child warp -> (parent warp, portal owner node)
+    pub parents: BTreeMap<u64, (u64, u64)>,
+}
+
+/// When set, `run_tick` passes the descent chain (the portal attachment slots root -> ... -> instance) to
+/// `apply_in_warp` for candidates inside descended instances, as the engine's Stage B1 law requires.
+pub static USE_DESCENT_STACK: std::sync::atomic::AtomicBool = std::sync::atomic::AtomicBool::new(false);
+
+pub fn descent_stack(g: &Graph, w: u64) -> Vec<AttachmentKey> {
+    let mut chain = Vec::new();
+    let mut cur = w;
+    while let Some((pw, pn)) = g.parents.get(&cur) {
+        chain.push(AttachmentKey::node_alpha(NodeKey { warp_id: wid(*pw), local_id: nid(*pn) }));
+        cur = *pw;
+    }
+    chain.reverse();
+    chain
 }
 
 pub fn build_graph(spec: &str) -> Graph {
     let mut state = WarpState::new();
     let mut root = None;
     let mut warps = Vec::new();
+    let mut parents = BTreeMap::new();
     let apply = |state: &mut WarpState, ops: Vec<WarpOp>| {
         warp_core::verif_hooks::apply_ops_to_state(state, &ops).unwrap_or_else(|e| panic!("graph spec op failed: {e:?}"));
     };
@@ -420,6 +438,7 @@ pub fn build_graph(spec: &str) -> Graph {
                     init: warp_core::PortalInit::Empty { root_record: NodeRecord { ty: tyid(0) } },
                 }]);
                 warps.push(u(0));
+                parents.insert(u(0), (u(2), u(3)));
             }
             "N" => apply(&mut state, vec![WarpOp::UpsertNode { node: NodeKey { warp_id: wid(u(0)), local_id: nid(u(1)) }, record: NodeRecord { ty: tyid(u(2)) } }]),
             "E" => apply(&mut state, vec![WarpOp::UpsertEdge { warp_id: wid(u(0)), record: EdgeRecord { id: eid(u(1)), from: nid(u(2)), to: nid(u(3)), ty: tyid(u(4)) } }]),
@@ -428,7 +447,7 @@ pub fn build_graph(spec: &str) -> Graph {
             x => panic!("graph item {x}"),
         }
     }
-    Graph { state, root: root.expect("graph needs a root instance"), warps }
+    Graph { state, root: root.expect("graph needs a root instance"), warps, parents }
 }
 
 /// Canonical dump of a state (sorted, hex) through public accessors.
@@ -508,8 +527,10 @@ pub fn new_engine(g: &Graph, kind: SchedulerKind, workers: usize) -> Engine {
 pub fn run_tick(g: &Graph, kind: SchedulerKind, workers: usize, enq: &[Req], script: Option<Vec<usize>>) -> TickOutcome {
     let mut engine = new_engine(g, kind, workers);
     let tx = engine.begin();
+    let use_descent = USE_DESCENT_STACK.load(std::sync::atomic::Ordering::Relaxed);
     for (r, w, n) in enq {
-        let _ = engine.apply_in_warp(tx, wid(*w), rule_name(*r), &nid(*n), &[]);
+        let stack = if use_descent { descent_stack(g, *w) } else { Vec::new() };
+        let _ = engine.apply_in_warp(tx, wid(*w), rule_name(*r), &nid(*n), &stack);
     }
     warp_core::verif_hooks::set_claim_script(script);
     let res = std::panic::catch_unwind(std::panic::AssertUnwindSafe(|| engine.commit_with_receipt(tx)));
